@@ -25,6 +25,8 @@ type c09Prog struct {
 	Timeout  bool       `json:"timeout,omitempty"`  // pass a generous fetch timeout (must not change anything)
 	FSort    bool       `json:"fsort,omitempty"`    // pass the ordering as FetchOptions.SortFn
 	Shared   bool       `json:"shared,omitempty"`   // the caller hands the SAME head slice to every load instead of a copy
+	Progress bool       `json:"progress,omitempty"` // pass a (drained) progress channel
+	NoIO     bool       `json:"noIO,omitempty"`     // default codec: leave LogOptions.IO unset
 	Earlier  int        `json:"earlier,omitempty"`  // 0: the log is published once; k > 0: every replica also published after each k-th operation of the history (and before the final merges)
 }
 
@@ -51,6 +53,8 @@ func genC09(t *rapid.T) c09Prog {
 	p.Timeout = rapid.IntRange(0, 2).Draw(t, "withTimeout") == 0
 	p.FSort = rapid.Bool().Draw(t, "fsort")
 	p.Shared = rapid.Bool().Draw(t, "sharedInputs")
+	p.Progress = rapid.IntRange(0, 2).Draw(t, "progress") == 0
+	p.NoIO = rapid.IntRange(0, 2).Draw(t, "noIO") == 0
 	p.Earlier = rapid.SampledFrom([]int{0, 0, 1, 2, 3}).Draw(t, "earlierPublications")
 	n := rapid.IntRange(1, 3).Draw(t, "nloads")
 	for i := 0; i < n; i++ {
@@ -133,7 +137,8 @@ func runC09(tb ev.TB, p c09Prog) ev.Result {
 	srcValues := world.Hashes(r.Log.Values())
 	nt := false
 	var classes []string
-	extra := loadExtra{SortFn: p.FSort}
+	var reported []string
+	extra := loadExtra{SortFn: p.FSort, Progress: p.Progress, Reported: &reported, DefaultIO: p.NoIO}
 	if p.Timeout {
 		extra.Timeout = 5 * time.Minute
 	}
